@@ -130,6 +130,7 @@ class Run:
         self.pkg_parent, self.env_extra = pkg_parent, env_extra
         self.w = U.Worker(pkg_parent, env_extra, timeout=60 if env_extra else 30)
         self.crashes = 0
+        self.crash_sites = {}
 
     def close(self):
         self.w.close()
@@ -142,6 +143,11 @@ class Run:
             self.crashes += 1
             self.res.count("crash:" + self.tag)
             rep = [l for l in c.stderr_tail.split("\n") if "runtime error" in l or "ERROR: AddressSanitizer" in l or "SUMMARY" in l][:4]
+            site = (rep[0] if rep else c.status)[:160]
+            self.crash_sites[site] = self.crash_sites.get(site, 0) + 1
+            self.res.extra.setdefault("crash_sites", {})[self.tag + ": " + site] = self.crash_sites[site]
+            if self.crash_sites[site] > 2:
+                return None          # same report again: counted, not listed again (keeps exploring other sites)
             self.res.disagree("spec", dict(inp, build=self.tag), {"kind": "crash", "status": c.status, "sanitizer": rep,
                                                                  "stderr_tail": c.stderr_tail[-600:]},
                               None, {"kind": "value-or-python-exception"},
@@ -466,6 +472,13 @@ def one_build(ctx, res, run, fmts, first):
         sorted({0, 65535, 1 << 16, (1 << 16) | 1, 0x1043, 0x11043} | {1 << k for k in range(18)} | {rng.randrange(1 << 18) for _ in range(600)})
     for f in flagset:
         todo.append(("iff", f, add({"op": "iff", "flags": f})))
+    halves = [0, 1, 10, 100, 1000, 10000, 0x7FFF, 0x8000, 0xFFFE, 0xFFFF]
+    for hi in halves:
+        for lo in halves:
+            todo.append(("ethspeed", (hi, lo), add({"op": "ethspeed", "hi": hi, "lo": lo})))
+    for _ in range(ctx.n(100, 2000)):
+        hi, lo = rng.randrange(65536), rng.randrange(65536)
+        todo.append(("ethspeed", (hi, lo), add({"op": "ethspeed", "hi": hi, "lo": lo})))
     needs = [None, 1, 64, 65, 128, 129, 1024, 4096, 2**20] + ([2**27, 2**30] if ctx.tier == "thorough" else [])
     for nd in needs:
         todo.append(("affget", nd, add({"op": "affget", "need": nd})))
@@ -522,6 +535,14 @@ def one_build(ctx, res, run, fmts, first):
             compare_call(run, call, pred, None)
         elif kind == "ionice":
             compare_ionice(run, payload, outs[idx])
+        elif kind == "ethspeed":
+            m = outs[idx]
+            res.case((kind, payload), nontrivial=True)
+            res.count("bounds:ethspeed")
+            if m["model"] != m["spec"]:
+                res.disagree("spec", {"kind": "ethspeed", "hi": payload[0], "lo": payload[1], "line": lines[idx]}, m["model"], m["model"], m["spec"],
+                             note="model of the current source: a NIC whose driver reports ethtool speed halves (speed_hi=%d, speed=%d) makes net_if_duplex_speed()/net_if_stats() evaluate speed_hi << 16 in a C int: %s" % (
+                                 payload[0], payload[1], "not representable (undefined behaviour; UBSan reports it on such a NIC)" if m["model"].get("kind") == "ub" else "wrong value"))
         elif kind in ("strncpy", "mac", "iff"):
             m = outs[idx]
             res.case((kind, payload), nontrivial=True)
@@ -704,6 +725,10 @@ def _replay_case(ctx, res, inp):
                     compare_ionice(run, (inp["cls"], inp["value"]), drv.batch([{"op": "ionice_py", "cls": inp["cls"], "value": inp["value"]}])[0])
                 elif k == "affget":
                     compare_affget(run, U.build_shim(), inp["need"], drv.batch([{"op": "affget", "need": inp["need"]}])[0])
+                elif k == "ethspeed":
+                    m = drv.batch([inp["line"]])[0]
+                    if m["model"] != m["spec"]:
+                        res.disagree("spec", inp, m["model"], m["model"], m["spec"], note="speed_hi << 16 in a C int is not representable / wrong")
                 elif k in ("strncpy", "mac", "iff"):
                     m = drv.batch([inp["line"]])[0]
                     mo, sp = m["model"], m["spec"]
